@@ -136,14 +136,15 @@ Definition emit_request (q : wreq) : option (list field) :=
 (** ** Trailers: validTrailerToSend and writeTrailers (shared by both writers) *)
 
 Definition valid_to_send (k : bytes) : bool :=
-  valid_trailer k && negb (mem (lower_bytes k) conn_specific).
+  valid_trailer k && negb (mem (lower_bytes k) conn_specific) && token_ok (lower_bytes k).
 
+(** values with forbidden bytes are not sent (fixes/C19-write-trailers-sanitises-fields.patch) *)
 Definition trailer_entry_fields (e : bytes * list bytes) : list field :=
-  if valid_to_send (fst e) then map (fun v => F (lower_bytes (fst e)) v) (snd e) else [].
+  if valid_to_send (fst e) then map (fun v => F (lower_bytes (fst e)) v) (filter value_ok (snd e)) else [].
 
-(** None = nothing is written (no sendable trailer has a value) *)
+(** None = nothing is written (no sendable trailer has a sendable value) *)
 Definition write_trailers (t : gomap) : option (list field) :=
-  if existsb (fun e => valid_to_send (fst e) && negb (match snd e with [] => true | _ => false end)) t
+  if existsb (fun e => valid_to_send (fst e) && existsb value_ok (snd e)) t
   then Some (flat_map trailer_entry_fields t)
   else None.
 
@@ -200,12 +201,26 @@ Definition rsp_entry_fields (declared : list bytes) (e : bytes * list bytes) : l
   if mem k declared then []
   else if has_prefix trailer_prefix k then []
   else if mem (lower_bytes k) conn_specific then []
+  else if negb (token_ok (lower_bytes k)) then []      (* fixes/C19-response-writer-sanitises-fields.patch *)
   else flat_map (fun v => if beq (lower_bytes k) n_te && negb (beq v v_trailers) then []
+                          else if negb (value_ok v) then []
+                          else if beq (lower_bytes k) n_content_length &&
+                                  match parse_uint63 v with None => true | Some _ => false end then []
                           else [F (lower_bytes k) v]) (snd e).
+
+(** "at most one Content-Length": the [sentContentLength] flag of writeHeader's loop, as a pass that
+    keeps the first content-length field and drops the later ones *)
+Fixpoint keep_first_cl (seen : bool) (l : list field) : list field :=
+  match l with
+  | [] => []
+  | f :: r => if beq (fname f) n_content_length
+              then (if seen then keep_first_cl true r else f :: keep_first_cl true r)
+              else f :: keep_first_cl seen r
+  end.
 
 (** responseWriter.writeHeader(status) on the header map [h] *)
 Definition rsp_fields (status : Z) (h : gomap) : list field :=
-  F (bs ":status") (itoa status) :: flat_map (rsp_entry_fields (declared_trailers h)) h.
+  F (bs ":status") (itoa status) :: keep_first_cl false (flat_map (rsp_entry_fields (declared_trailers h)) h).
 
 (** responseWriter.writeTrailers: promotion of "Trailer:"-prefixed keys, the trailer map, then
     writeTrailers. [declared] is what writeHeader declared, [h] the header map at that moment. *)
